@@ -496,6 +496,18 @@ def project_stats(rec, stats):
     return dict(has_stats=True, stats=ent, filtered=filtered, filtered_all=fall, logged_unchanged=logged_ok, work_ok=work_ok)
 
 
+def stats_digest(stats):
+    import hashlib
+    items = []
+    for k, v in (stats or {}).items():
+        if str(k.type).startswith('timing'):
+            continue
+        val = hashlib.sha1(np.asarray(v).tobytes()).hexdigest()[:10] if isinstance(v, np.ndarray) else repr(v)
+        items.append((repr(tuple(k)), val))
+    items.sort()
+    return hashlib.sha1(repr(items).encode()).hexdigest()
+
+
 def run_traced(description, controller_params, num_procs, u0_fn, t0, Tend, unit=None, script=None, mode='lattice',
                extra_hooks=(), controller_cls=TracedController, default=None, defect_check=True, prelude=None):
     """Build a traced controller from a plain description and run it.  Returns (recorder, outcome dict)."""
@@ -534,7 +546,9 @@ def run_traced(description, controller_params, num_procs, u0_fn, t0, Tend, unit=
             pre.defect_check = False
             pre.controller = ctrl
             _CURRENT = pre
-            ctrl.run(u0=u0_fn(P), t0=prelude['t0'], Tend=prelude['Tend'])
+            pre_out = ctrl.run(u0=u0_fn(P), t0=prelude['t0'], Tend=prelude['Tend'])
+            rec.pre_stats = pre_out[1]
+            rec.pre_digest = stats_digest(pre_out[1])
             _CURRENT = rec
         u0 = u0_fn(P)
         rec.u0_obj = u0
@@ -550,6 +564,8 @@ def run_traced(description, controller_params, num_procs, u0_fn, t0, Tend, unit=
             out['exc_msg'] = str(e)[:200]
         rec.lines.append(dict(k='end', exc=out['exc'] or 'none', ret=rec.hid(out['uend']), carry=rec.last_carry,
                               u0_unchanged=(rec.hid(u0) == h_before), evs=rec.events,
+                              # the statistics an EARLIER run on this controller returned are still what they were
+                              prev_stats_unchanged=bool(getattr(rec, 'pre_stats', None) is None or stats_digest(rec.pre_stats) == rec.pre_digest),
                               **project_stats(rec, out['stats'])))
         rec.events = []
     finally:
